@@ -391,7 +391,7 @@ def system_histories(quick):
     pki = os.path.join(common.scratch(), "pki05")
     issue = sysdrv.make_pki(pki)
     issue("alice", ["alice"], "client")
-    n, m = (6, 30) if quick else (16, 120)
+    n, m = (8, 40) if quick else (16, 120)
     with concurrent.futures.ProcessPoolExecutor(max_workers=min(common.NCPU, 8)) as pool:
         return list(pool.map(_sys_history, [("s%d" % i, common.SEED * 977 + i, m, pki) for i in range(n)]))
 
@@ -406,7 +406,7 @@ def check(run, tier):
                 "keys (length, same bytes on every later Get), reads under a randomly chosen KMIP version per call, activations, "
                 "engine restarts on the same file. distinct = distinct (step kind, object type, version, outcome).")
     E.rsa_pair()
-    n, m = (48, 60) if quick else (400, 120)
+    n, m = (96, 70) if quick else (400, 120)
     with multiprocessing.Pool(common.NCPU) as pool:
         traces = pool.map(_history, [("c%d" % i, common.SEED * 131 + i, m) for i in range(n)])
     # the same pipeline on the whole system (real TLS, the server as its own process, real restarts of that process)
